@@ -790,4 +790,36 @@ def build():
         },
     ))
     p.spec_funcs["BACKING_IS_USER_FILE"] = lambda interp: "BACKING" in interp.ctx.ghost and interp.ctx.ghost.get("TEMPORARY") is False
+    # ---- the wiring from the settings of a Parallel call (max_nbytes, mmap_mode, temp folder) to the reducers that act on them:
+    # get_memmapping_reducers builds ONE forward reducer carrying exactly these settings and registers it for ndarray and memmap, and the
+    # by-value backward reducer for both (results never come back as temporary memmaps); ArrayMemmapForwardReducer.__init__ stores what it
+    # is given.  A setting dropped or swapped here silently changes which arrays are memmapped and how (C19: "present the same values").
+    def new_fwd(interp, args, kwargs):
+        o = Opaque("fwdreducer", None, args=tuple(args), kwargs=PyDict(dict(kwargs)))
+        interp.ctx.events.append(("new-forward-reducer", o))
+        return o
+
+    rglob = {"np": lambda interp: Opaque("numpy", None, ndarray=Opaque("pyclass", "ndarray", classname="ndarray"), memmap=Opaque("pyclass", "memmap", classname="memmap")),
+             "ArrayMemmapForwardReducer": lambda interp: _Fn(new_fwd),
+             "reduce_array_memmap_backward": lambda interp: Opaque("backward-by-value", None)}
+    p.spec_funcs["fwd_of"] = lambda interp, d, k: d.d.get(k)
+    p.spec_funcs["cls_key"] = lambda interp, d, name: next((v for k, v in d.d.items() if isinstance(k, Opaque) and k.attrs.get("classname") == name), None)
+    p.add(Contract(
+        MR, "get_memmapping_reducers", props=["C19"], globals=rglob,
+        params=dict(forward_reducers=None, backward_reducers=None, temp_folder_resolver=OpaqueOf("resolver"), max_nbytes=Opt(INT), mmap_mode=OneOf(None, "r", "r+", "w+", "c"),
+                    verbose=INT, prewarm=OneOf(False, True, "auto"), unlink_on_gc_collect=BOOL),
+        ensures={"one_forward_reducer_for_arrays_and_memmaps": "n_events('new-forward-reducer') == 1 and cls_key(result[0], 'ndarray') is cls_key(result[0], 'memmap') and is_tag(cls_key(result[0], 'ndarray'), 'fwdreducer')",
+                 "it_carries_the_callers_settings": "cls_key(result[0], 'ndarray').args[0] is max_nbytes and cls_key(result[0], 'ndarray').args[1] is temp_folder_resolver "
+                                                    "and cls_key(result[0], 'ndarray').args[2] is mmap_mode and cls_key(result[0], 'ndarray').args[3] is unlink_on_gc_collect",
+                 "results_come_back_by_value": "is_tag(cls_key(result[1], 'ndarray'), 'backward-by-value') and is_tag(cls_key(result[1], 'memmap'), 'backward-by-value')"},
+    ))
+    p.models["new:_WeakArrayKeyMap"] = lambda i, a, k: Opaque("weakmap", None)
+    p.add(Contract(
+        MR, "ArrayMemmapForwardReducer.__init__", props=["C19"], globals={"_WeakArrayKeyMap": lambda interp: _Fn(lambda i, a, k: Opaque("weakmap", None))},
+        params=dict(self=ObjOf("ArrayMemmapForwardReducer"), max_nbytes=Opt(INT), temp_folder_resolver=OpaqueOf("resolver"), mmap_mode=OneOf(None, "r", "r+", "w+", "c"),
+                    unlink_on_gc_collect=BOOL, verbose=INT, prewarm=OneOf(False, True)),
+        ensures={"keeps_what_it_is_given": "self._max_nbytes is max_nbytes and self._temp_folder_resolver is temp_folder_resolver and self._mmap_mode is mmap_mode "
+                                           "and self._unlink_on_gc_collect is unlink_on_gc_collect",
+                 "starts_without_any_temporary": "is_tag(self._memmaped_arrays, 'weakmap')"},
+    ))
     return p
